@@ -403,11 +403,22 @@ pub struct RunResult<T> {
     pub timed_out: bool,
     /// the scenario's own task panicked (a call into the code under test did)
     pub scenario_panicked: bool,
+    /// yields injected at uncontended lock / channel acquisitions
+    pub yields_injected: u64,
 }
 
 /// Runs `scenario` inside a fresh current-thread runtime with a paused clock. `limit` is the
 /// virtual-time budget of the whole scenario.
 pub fn run_world<T: 'static, F, Fut>(net_cfg: NetCfg, rng_seed: u64, limit: Duration, scenario: F) -> Result<RunResult<T>>
+where
+    F: FnOnce(Rc<World>) -> Fut,
+    Fut: Future<Output = T> + 'static,
+{
+    run_world_yielding(net_cfg, rng_seed, limit, None, scenario)
+}
+
+/// As `run_world`, with the yield-injection rate given by the family instead of drawn from the seed.
+pub fn run_world_yielding<T: 'static, F, Fut>(net_cfg: NetCfg, rng_seed: u64, limit: Duration, yield_ppm: Option<u32>, scenario: F) -> Result<RunResult<T>>
 where
     F: FnOnce(Rc<World>) -> Fut,
     Fut: Future<Output = T> + 'static,
@@ -422,6 +433,10 @@ where
     let _ = take_events();
     let _ = crate::panics::take_all();
     let local = tokio::task::LocalSet::new();
+    // seeded yield injection at tokio's synchronisation points (vendored seam, see DESIGN.md §2):
+    // the rate itself is part of the swarm
+    let yield_ppm = yield_ppm.unwrap_or([0u32, 20_000, 100_000, 300_000][(rng_seed >> 7) as usize % 4]);
+    tokio::sim_yield::reseed(rng_seed ^ 0x51D_EC0DE, yield_ppm);
     let out = local.block_on(&rt, async move {
         T0.with(|t| *t.borrow_mut() = Some(now_std()));
         let world = World::new(net_cfg)?;
@@ -444,12 +459,13 @@ where
     selium::verif::set_endpoint_factory(None);
     drop(local);
     drop(rt);
+    let yields_injected = tokio::sim_yield::disable();
     let (value, timed_out, virtual_ms, net, net_trace, scenario_panicked) = out?;
     let events = take_events();
     let panics = crate::panics::take_all();
     // per-run certificate scratch
     let _ = std::fs::remove_dir_all(scratch_root());
-    Ok(RunResult { value, events, panics, virtual_ms, net, net_trace, timed_out, scenario_panicked })
+    Ok(RunResult { value, events, panics, virtual_ms, net, net_trace, timed_out, scenario_panicked, yields_injected })
 }
 
 /// Folds the generic parts of a run into an outcome (faults fired, virtual time, panics in /repo code).
@@ -460,6 +476,7 @@ pub fn fold<T>(out: &mut Outcome, prop: &str, r: &RunResult<T>) {
     out.fault_n("datagram_reordered", r.net.reordered);
     out.fault_n("datagram_dropped_by_partition", r.net.partition_dropped);
     out.probe_n("datagrams_delivered", r.net.delivered);
+    out.fault_n("task_yield_injected_at_lock_or_channel", r.yields_injected);
     for (loc, msg) in &r.panics {
         let in_repo = ["server/", "client/", "protocol/", "standard/", "tools/"].iter().any(|p| loc.starts_with(p));
         if in_repo {
